@@ -50,7 +50,7 @@ def run(R):
     R.coq_files(FILES)
     R.coq_property()
     R.audit()
-    n = 30 if R.tier == "quick" else 600
+    n = 30 if R.tier == "quick" else 300
     obs = observe(R, n)
     total = 0
     if obs:
